@@ -5,10 +5,12 @@
 -/
 import RoModel.DriverCore
 import RoModel.Drivers.Op
+import RoModel.Drivers.Fault
 namespace Ro.Driver
 
 def handlers : List (String × (Case → String)) := [
-  ("op", Drivers.Op.run)
+  ("op", Drivers.Op.run),
+  ("fault", Drivers.Fault.run)
 ]
 
 def runCase (c : Case) : String :=
